@@ -261,6 +261,12 @@ def check(repo: Repo) -> Result:
     cf = uo.func("_create_unit_from_factor")
     rets = [norm(n.value) for n in walk_no_nested(cf.node) if isinstance(n, ast.Return)]
     res.check(rets == ["Unit(base, f[0], f[2], f[1], registry, f[3]) ** exp"], "factor-unit", cf.where(), "a factor's unit is the registry row of its base raised to the factor's own exponent", found=rets, rid=r4)
+
+    from rules import c04
+    from rules.common import share
+
+    r7 = res.rule("C05-R7", "the unit rules behind np.sqrt / cbrt / square / reciprocal / power are the power law of Unit objects (rule(u) == u**p for every u, also a scaled dimensionless one; shared with C04-R1)", floor=5)
+    share(res, r7, "C04", lambda t: c04.signatures(repo, t), ["C04-R1"], want=lambda k: k.split("->")[0] in ("sqrt", "cbrt", "square", "reciprocal", "power", "float_power"), min_keys=5)
     return res
 
 
@@ -281,4 +287,5 @@ MUTANTS = [
     Mutant("div-scale-multiplied", UO, "Unit.__truediv__", "base_value=(self.base_value / u.base_value)", "base_value=(self.base_value * u.base_value)", ("C05-R1",)),
     Mutant("dimension-not-positive", "unyt/dimensions.py", None, 'luminous_intensity = Symbol("(luminous_intensity)", positive=True)', 'luminous_intensity = Symbol("(luminous_intensity)")', ("C05-R5",)),
     Mutant("as-coeff-unit-drops-offset", UO, "Unit.as_coeff_unit", "            self.base_offset,\n", "            0.0,\n", ("C05-R1",)),
+    Mutant("sqrt-rule-keeps-unit", "unyt/array.py", "_sqrt_unit", "return 1, unit**0.5", "return 1, unit", ("C05-R7",)),
 ]
